@@ -60,6 +60,22 @@ CHECKS = {
             'oracle for pop/default, KeyError and the byte-identical TypeError case.',
             'Trusted: json.dumps/loads round-trip with an own NumPy converter as reference; popitem may return any present key.',
             'DESIGN.md section 4 C13'),
+    'C09': ('faults', 'fault_enumeration', E3,
+            'One deviation per execution, enumerated completely: start {empty, non-empty} x 4 row geometries x 0..3 chunks x every '
+            'failure position x kind {iterable raises, wrong trailing shape, wrong rank, unconvertible element} x entry point, and a '
+            'kernel-enforced write failure (RLIMIT_FSIZE) at the offsets around every chunk boundary (quick) / at every byte offset of '
+            'the growth region (thorough); after each: raised, opens, decoder-consistent, contents == original + completed chunks, '
+            'live == fresh, a further append lands correctly.',
+            'Trusted: RLIMIT_FSIZE with SIGXFSZ ignored as "the file system refuses further growth"; limits below the README size '
+            '(~3.9 KiB) are not explored because the limit applies to every file of the process.',
+            'DESIGN.md section 4 C09, 3.5'),
+    'C10': ('faults', 'fault_enumeration', E3,
+            'One deviation per execution: start {no subarrays, 3 big subarrays, 700 zero-length subarrays, near index overflow} x atom '
+            'rank 0..2 x 0..3 items x every failure position x kind {iterable raises, wrong atom, wrong rank, unconvertible item, index '
+            'overflow of an 8-bit index type, write failure on the values file, write failure on the indices file}; after each: raised, '
+            'RaggedArray opens, the independent ragged decoder accepts the directory, subarrays == original + completed items, live == fresh.',
+            'Trusted: RLIMIT_FSIZE as the write-failure mechanism; limits below 10 KiB (top-level README) are not explored.',
+            'DESIGN.md section 4 C10, 3.5'),
     'C01': ('enum', 'exploration', E2,
             'Complete sub-products of (source type x byte order x layout x shape x input form x dtype argument x chunklen x fill) '
             'against np.asarray/astype/concatenate/full, compared in dtype.str, shape and bytes through the returned handle, a '
